@@ -12,7 +12,7 @@
 using namespace vfh;
 static int cnt[32], data[32], who[32]; static int nunits = 0;
 static void unit(int i) { if (++cnt[i] != 1) vf_fail("unit %d executed %d times", i, cnt[i]); vf_plain_write(&data[i]); data[i] = 100 + i; who[i] = vf_self(); if (i >= nunits) nunits = i + 1; }
-static void covered(int n, const char* where) { for (int i = 0; i < n; i++) { if (cnt[i] != 1) vf_fail("%s returned but unit %d ran %d times", where, i, cnt[i]); vf_plain_read(&data[i]); if (data[i] != 100 + i) vf_fail("%s: write of unit %d not visible", where, i); } }
+static void covered(int n, const char* where, int from = 0) { for (int i = from; i < n; i++) { if (cnt[i] != 1) vf_fail("%s returned but unit %d ran %d times", where, i, cnt[i]); vf_plain_read(&data[i]); if (data[i] != 100 + i) vf_fail("%s: write of unit %d not visible", where, i); } }
 static void scenario() {
     const char* k = vf_param("kind", "tg"); int P = (int)vf_param_int("P", 2);
     tbb::global_control gc(tbb::global_control::max_allowed_parallelism, P);
@@ -38,7 +38,7 @@ static void scenario() {
         vf_window(1); ar.execute([&] { tbb::parallel_for(tbb::blocked_range<int>(0, 4, 1), [&](const tbb::blocked_range<int>& r) { for (int i = r.begin(); i < r.end(); i++) unit(i); }, ap); covered(4, "parallel_for(affinity)"); }); vf_window(0); }
     else if (streq(k, "enqueue")) { vf_window(1); tbb::task_group tg; ar.enqueue([&] { unit(0); }); ar.enqueue(tg.defer([&] { unit(1); })); ar.execute([&] { tg.run([&] { unit(2); }); tg.wait(); }); 
         if (cnt[1] != 1 || cnt[2] != 1) vf_fail("wait returned before group work finished");
-        for (int i = 0; i < 4000 && !cnt[0]; i++) vf_yield(); if (cnt[0] != 1) vf_fail("enqueued task did not run"); vf_window(0); covered(3, "enqueue/execute"); }
+        for (int i = 0; i < 4000 && !cnt[0]; i++) vf_yield(); if (cnt[0] != 1) vf_fail("enqueued task did not run"); vf_window(0); covered(3, "enqueue/execute", 1); /* unit 0 is a plain enqueue that no wait covers: only its execution count is checked (above); the property promises no visibility edge for it */ }
     else if (streq(k, "isolate")) { vf_window(1); ar.execute([&] { tbb::task_group outer; outer.run([&] { unit(0); }); outer.run([&] { unit(1); });
             tbb::this_task_arena::isolate([&] { tbb::task_group in; in.run([&] { unit(2); }); in.run([&] { unit(3); }); in.wait(); if (cnt[2] != 1 || cnt[3] != 1) vf_fail("isolated wait returned early"); });
             outer.wait(); covered(4, "outer wait"); }); vf_window(0); }
